@@ -181,3 +181,11 @@ func (c *Ctx) resolveAnchors() {
 func (c *Ctx) isAnchorFn(fn *ssa.Function) bool {
 	return inlineAnchors[fn.Name()] || c.aliasTarget[fn] != ""
 }
+
+// anchorRoleOf: the pinned name whose role fn plays after a rename (resolveAnchors), if any.
+func (c *Ctx) anchorRoleOf(fn *ssa.Function) (string, bool) {
+	if n := c.aliasTarget[fn]; n != "" {
+		return n, true
+	}
+	return "", false
+}
